@@ -244,6 +244,8 @@ structure Sys where
   ct : Conntrack
   now : Nat
   ticker : Ticker
+  /-- ghost (no counterpart in the Go code): how many reloads have been installed so far. -/
+  reloads : Nat := 0
 
 def Sys.new (fw : Fw) (cachePeriod : Nat) : Sys :=
   { fw := fw, ct := Conntrack.new fw.tcpTimeout fw.udpTimeout fw.defaultTimeout, now := 0,
@@ -251,9 +253,9 @@ def Sys.new (fw : Fw) (cachePeriod : Nat) : Sys :=
 
 /-- one packet through the routine: `cache := ticker.Get(); Drop(p, incoming, h, pool, cache)`. -/
 def Sys.packet (s : Sys) (p : Packet) (incoming : Bool) (h : HostInfo) : Verdict × Sys :=
-  let (tk, cache) := s.ticker.get s.now
-  let (v, ct, cache) := drop s.fw s.ct s.now cache p incoming h
-  (v, { s with ct := ct, ticker := tk.store cache })
+  let g := s.ticker.get s.now
+  let r := drop s.fw s.ct s.now g.2 p incoming h
+  (r.1, { s with ct := r.2.1, ticker := g.1.store r.2.2 })
 
 def Sys.sleep (s : Sys) (d : Nat) : Sys := { s with now := s.now + d }
 
@@ -262,8 +264,47 @@ def Sys.reload (s : Sys) (newFw : Fw) : Sys :=
   let v := (s.fw.rulesVersion + 1) % 65536
   if v = 0 then
     { s with fw := { newFw with rulesVersion := 0 },
-             ct := Conntrack.new newFw.tcpTimeout newFw.udpTimeout newFw.defaultTimeout }
+             ct := Conntrack.new newFw.tcpTimeout newFw.udpTimeout newFw.defaultTimeout,
+             reloads := s.reloads + 1 }
   else
-    { s with fw := { newFw with rulesVersion := v } }
+    { s with fw := { newFw with rulesVersion := v }, reloads := s.reloads + 1 }
+
+/-! ### histories -/
+
+inductive Op where
+  | sleep (d : Nat)
+  | packet (p : Packet) (incoming : Bool) (h : HostInfo)
+  | reload (newFw : Fw)
+
+/-- what is observed of one packet: when, which tuple and direction, from/to whom, the verdict, and (for the
+statements) the firewall that judged it and how many reloads had happened. -/
+structure Event where
+  time : Nat
+  pkt : Packet
+  incoming : Bool
+  host : HostInfo
+  verdict : Verdict
+  fw : Fw
+  reloads : Nat
+
+/-- did a rule of the packet's own direction allow it (under the firewall that judged it)? -/
+def Event.ruleAllowed (e : Event) : Bool := (e.fw.table e.incoming).matches e.pkt e.incoming e.host.peer
+
+def Sys.step (s : Sys) : Op → Sys × Option Event
+  | .sleep d => (s.sleep d, none)
+  | .packet p incoming h =>
+    let r := s.packet p incoming h
+    (r.2, some { time := s.now, pkt := p, incoming := incoming, host := h, verdict := r.1, fw := s.fw,
+                 reloads := s.reloads })
+  | .reload newFw => (s.reload newFw, none)
+
+/-- run a history; events are collected newest first. -/
+def Sys.runFrom : Sys × List Event → List Op → Sys × List Event
+  | st, [] => st
+  | (s, evs), op :: ops =>
+    let r := s.step op
+    Sys.runFrom (r.1, r.2.toList ++ evs) ops
+
+def Sys.run (s : Sys) (ops : List Op) : Sys × List Event := Sys.runFrom (s, []) ops
 
 end Nebula.Fw
